@@ -13,6 +13,8 @@ import (
 
 func init() {
 	register(&Property{ID: "C28", Run: runC28, Mutants: []Mutant{
+		{Name: "a request's sizes written into the shared per-arch table entry", File: "internal/loader/loader.go", Old: "\t} else {\n\t\treturn &types.StdSizes{\n\t\t\tWordSize: p.cfg.WaSizes.WordSize,\n\t\t\tMaxAlign: p.cfg.WaSizes.MaxAlign,\n\t\t}\n\t}", New: "\t}\n\tsizes, _ := types.SizesFor(p.GetTargetArch()).(*types.StdSizes)\n\tsizes.WordSize = p.cfg.WaSizes.WordSize\n\tsizes.MaxAlign = p.cfg.WaSizes.MaxAlign\n\treturn sizes", Expect: "shared-state-write :: internal/types.gcArchSizes"},
+		{Name: "compile lock released before the module is rendered (not deferred)", File: "internal/backends/compiler_wat/compile.go", Old: "\tcompileMu.Lock()\n\tdefer compileMu.Unlock()\n", New: "\tcompileMu.Lock()\n", Expect: "shared-state-write"},
 		{Name: "compile lock removed", File: "internal/backends/compiler_wat/compile.go", Old: "\tcompileMu.Lock()\n\tdefer compileMu.Unlock()\n", New: "", Expect: "shared-state-write :: internal/backends/compiler_wat/wir.currentModule"},
 		{Name: "package scopes appended to the universe again", File: "internal/types/scope.go", Old: "if parent != nil && parent != WaUniverse && parent != WzUniverse {", New: "if parent != nil && (parent != WaUniverse || parent != WzUniverse) {", Expect: "shared-state-write :: internal/types.WaUniverse written by internal/types.NewPackage"},
 		{Name: "formatter remembers the last file in a package variable", File: "internal/format/format.go", Old: "func File(vfs fs.FS, filename string, src interface{}) (text []byte, changed bool, err error) {", New: "var lastFile string\n\nfunc File(vfs fs.FS, filename string, src interface{}) (text []byte, changed bool, err error) {\n\tlastFile = filename", Expect: "shared-state-write :: internal/format.lastFile"},
@@ -47,6 +49,19 @@ func globalRoot(v ssa.Value, depth int) *ssa.Global {
 			v = x.X
 		case *ssa.Lookup:
 			v = x.X
+		case *ssa.TypeAssert:
+			v = x.X
+		case *ssa.MakeInterface:
+			v = x.X
+		case *ssa.Extract:
+			v = x.Tuple
+		case *ssa.Call:
+			// a static callee all of whose returns hand out (a pointer derived from) one package variable
+			callee := x.Call.StaticCallee()
+			if callee == nil {
+				return nil
+			}
+			return returnsGlobal(callee, 8)
 		case *ssa.Phi:
 			// any incoming value derived from a package variable
 			if depth > 2 {
@@ -62,6 +77,44 @@ func globalRoot(v ssa.Value, depth int) *ssa.Global {
 		}
 	}
 	return nil
+}
+
+var returnsGlobalMemo = map[*ssa.Function]*ssa.Global{}
+var returnsGlobalBusy = map[*ssa.Function]bool{}
+
+// returnsGlobal: does fn return, on some path, a reference into a package-level variable (e.g. a pointer stored in a
+// package-level table)? A caller that writes through the result writes shared state.
+func returnsGlobal(fn *ssa.Function, depth int) *ssa.Global {
+	if g, ok := returnsGlobalMemo[fn]; ok {
+		return g
+	}
+	if returnsGlobalBusy[fn] || fn.Blocks == nil {
+		return nil
+	}
+	returnsGlobalBusy[fn] = true
+	defer delete(returnsGlobalBusy, fn)
+	var found *ssa.Global
+	for _, b := range fn.Blocks {
+		for _, ins := range b.Instrs {
+			ret, ok := ins.(*ssa.Return)
+			if !ok {
+				continue
+			}
+			for _, r := range ret.Results {
+				// only reference-like results can alias shared storage
+				switch r.Type().Underlying().(type) {
+				case *types.Pointer, *types.Map, *types.Slice, *types.Interface:
+				default:
+					continue
+				}
+				if g := globalRoot(r, depth); g != nil && found == nil {
+					found = g
+				}
+			}
+		}
+	}
+	returnsGlobalMemo[fn] = found
+	return found
 }
 
 type globalWrite struct {
